@@ -218,6 +218,32 @@ func (e *Env) simExec(name string, args []string) ([]byte, error, bool) {
 		e.fullCmd = e.fullCmd[i+4:]
 	}
 	cwd := "."
+	// bash list semantics: statements separated by newlines run one after the other whatever their
+	// status; the status of the script is the status of the LAST statement; inside a statement the
+	// parts of an && chain stop at the first failure
+	stmts := strings.Split(line, "\n")
+	if len(stmts) > 1 {
+		var lastOut []byte
+		var lastErr error
+		for _, st := range stmts {
+			if strings.TrimSpace(st) == "" {
+				continue
+			}
+			out, err, ok := e.simChain(st, &cwd)
+			if !ok {
+				return nil, nil, false
+			}
+			lastOut, lastErr = out, err
+		}
+		return lastOut, lastErr, true
+	}
+	return e.simChain(line, &cwd)
+}
+
+// simChain runs one && chain of mini-commands.
+func (e *Env) simChain(line string, cwdp *string) ([]byte, error, bool) {
+	cwd := *cwdp
+	defer func() { *cwdp = cwd }()
 	for _, part := range strings.Split(line, " && ") {
 		f := strings.Fields(part)
 		if len(f) > 1 && f[0] == "env" { // "env CMD ARGS": a launcher in front of the command
